@@ -263,6 +263,21 @@ theorem decoder_inverts_marshaller (s : Schema) (hs : SchemaFacts s) (f : Nat) (
     foldField (unmarshalNode s f) ty cur (entries d ts) = .ok q :=
   decode_marshal s hs f name om ty cur v ts q d hm hr
 
+/-- the body of the document the encoder writes (everything after the declaration), read by
+    the decoder as characters, gives the leaf-wise round trip -/
+theorem body_decodes (db q : V) (chars : List Char)
+    (henc : encodeDoc Spec.schema db = .ok chars)
+    (hrt : rtOf Spec.schema 64 false (.named "DB") (zeroOf Spec.schema 8 (.named "DB")) db = some q) :
+    decodeBody Spec.schema (chars.drop declChars.length) = .ok q := by
+  obtain ⟨t, hm, hok, hname, hc⟩ := encode_renders db chars henc
+  have hdrop : chars.drop declChars.length = '\n' :: Xml.renderTree 0 t := by
+    rw [hc, xmlHeader_eq, List.append_assoc, List.drop_left]; rfl
+  rw [hdrop, decodeBody_printed Spec.schema "LapTimerDB" t spec_root hname hok]
+  have := decode_marshal Spec.schema spec_facts 64 "LapTimerDB" false (.named "DB") _ db [t] q 0 hm hrt
+  simp only [entries, List.map_cons, List.map_nil] at this
+  rw [foldField_single] at this
+  exact this
+
 /-- **decoding the encoded file, for every database**: if the encoder writes `chars` for `db`
     and the leaf-wise round trip of `db` is `q`, then the decoder — XML declaration, UTF-8,
     tokenizer, element stack, content tree, field routing — returns exactly `q` for the file
@@ -274,19 +289,26 @@ theorem decode_of_encode (db q : V) (chars : List Char) (body : List UInt8)
     (hrt : rtOf Spec.schema 64 false (.named "DB") (zeroOf Spec.schema 8 (.named "DB")) db = some q)
     (hbody : utf8Decode (body.length + 1) body = some (chars.drop declChars.length)) :
     decodeDoc Spec.schema SpecSchema.cp1252 (declBytes ++ body) = .ok q := by
-  obtain ⟨t, hm, hok, hname, hc⟩ := encode_renders db chars henc
-  have hdrop : chars.drop declChars.length = '\n' :: Xml.renderTree 0 t := by
-    rw [hc, xmlHeader_eq, List.append_assoc, List.drop_left]; rfl
   unfold decodeDoc
   rw [splitDecl_decl]
   simp only [Outcome.bind, Bool.false_eq_true, if_false]
-  rw [hbody, hdrop]
-  simp only
-  rw [decodeBody_printed Spec.schema "LapTimerDB" t spec_root hname hok]
-  have := decode_marshal Spec.schema spec_facts 64 "LapTimerDB" false (.named "DB") _ db [t] q 0 hm hrt
-  simp only [entries, List.map_cons, List.map_nil] at this
-  rw [foldField_single] at this
-  exact this
+  rw [hbody]
+  exact body_decodes db q chars henc hrt
+
+/-- **the same file in windows-1252** (LapTimer's own export encoding): declared as
+    windows-1252, with body bytes that the code page reads as the document's characters (every
+    character representable: `cp1252_roundtrip`), the decoder returns the same value -/
+theorem cp1252_file_decodes (db q : V) (chars : List Char) (body : List UInt8)
+    (henc : encodeDoc Spec.schema db = .ok chars)
+    (hrt : rtOf Spec.schema 64 false (.named "DB") (zeroOf Spec.schema 8 (.named "DB")) db = some q)
+    (hbody : body.map (fun b => dec1252 b.toNat) = chars.drop declChars.length) :
+    decodeDoc Spec.schema SpecSchema.cp1252 (declBytes1252 ++ body) = .ok q := by
+  unfold decodeDoc
+  rw [splitDecl_decl1252]
+  simp only [Outcome.bind, if_true]
+  have : (body.map fun b => Char.ofNat ((SpecSchema.cp1252[b.toNat]?).getD 0xFFFD)) = chars.drop declChars.length := hbody
+  rw [this]
+  exact body_decodes db q chars henc hrt
 
 /-- **re-encoding theorem** (every schema with the facts, every value, every depth): if the leaf-wise
     round trip of `v` is `q` and `v` is stable — every destination on the way is fresh, every leaf
